@@ -4,7 +4,7 @@ use crate::{
     error::{assert_finite, assert_limited_precision, panic_power_negative_base},
     fbig::FBig,
     repr::{Context, Repr, Word},
-    round::{Round, Rounded},
+    round::{Round, Rounded, Rounding},
 };
 use dashu_base::{AbsOrd, Approximation::*, BitTest, DivRemEuclid, EstimatedLog2, Sign};
 use dashu_int::IBig;
@@ -315,7 +315,7 @@ impl<R: Round> Context<R> {
             k += 1;
         }
 
-        if no_scaling {
+        let res = if no_scaling {
             sum.with_precision(self.precision)
         } else if minus_one {
             // add extra digits to compensate for the subtraction
@@ -326,6 +326,12 @@ impl<R: Round> Context<R> {
         } else {
             self.powi(sum.repr(), Repr::<B>::BASE.pow(n).into())
                 .map(|v| v << s)
+        };
+        // exp(x) is irrational for every non-zero rational x: the result is never exact, even
+        // when the last rounding step happened to be
+        match res {
+            Exact(v) => Inexact(v, Rounding::NoOp),
+            r => r,
         }
     }
 }
